@@ -661,7 +661,7 @@ func abstractTrace(recs []memRec, cols []ecs.VerifColumn) *gcTrace {
 
 // c14KindTraces runs a fixed script of storage operations for components of every pointer-bearing shape with the memory
 // hook installed and adds the abstract traces to shapes.
-func c14KindTraces(shapes map[string]*gcTrace) (traced int, kinds []string) {
+func c14KindTraces(rp *runner.Report, shapes map[string]*gcTrace) (traced int, kinds []string) {
 	type kind struct {
 		name string
 		tp   reflect.Type
@@ -683,6 +683,15 @@ func c14KindTraces(shapes map[string]*gcTrace) (traced int, kinds []string) {
 			return c
 		}},
 		{"unsafe.Pointer", reflect.TypeOf(gen14.UPC{}), func(i int) interface{} { return &gen14.UPC{U: unsafe.Pointer(o(i))} }},
+		// component types that are not structs
+		{"bare-pointer", reflect.TypeOf(barePtr(nil)), func(i int) interface{} { v := barePtr(o(i)); return &v }},
+		{"bare-slice", reflect.TypeOf(bareSlice(nil)), func(i int) interface{} { v := bareSlice{uint64(i), uint64(i + 1)}; return &v }},
+		{"bare-string", reflect.TypeOf(bareString("")), func(i int) interface{} { v := bareString(fmt.Sprint("str", i)); return &v }},
+		{"bare-map", reflect.TypeOf(bareMap(nil)), func(i int) interface{} { v := bareMap{i: 7}; return &v }},
+		{"bare-interface", reflect.TypeOf((*bareIface)(nil)).Elem(), func(i int) interface{} { var v bareIface = o(i); return &v }},
+		{"bare-chan", reflect.TypeOf(bareChan(nil)), func(i int) interface{} { v := bareChan(make(chan int)); return &v }},
+		{"bare-func", reflect.TypeOf(bareFunc(nil)), func(i int) interface{} { x := o(i); v := bareFunc(func() { _ = x }); return &v }},
+		{"bare-array", reflect.TypeOf(bareArr{}), func(i int) interface{} { v := bareArr{o(i), nil, o(i + 1)}; return &v }},
 	}
 	var cur []memRec
 	ecs.VerifSetMemHook(func(op ecs.VerifMemOp) {
@@ -704,30 +713,58 @@ func c14KindTraces(shapes map[string]*gcTrace) (traced int, kinds []string) {
 		rid := ecs.ComponentID[sim.CompR](&w)
 		id := ecs.TypeID(&w, k.tp)
 		var e1, e2, e3 ecs.Entity
+		// content oracle: what every entity's component must read (the value that was supplied last)
+		expected := map[ecs.Entity]string{}
+		put := func(e ecs.Entity, v interface{}) ecs.Entity {
+			expected[e] = c14Show(k.tp, reflect.ValueOf(v).UnsafePointer())
+			return e
+		}
+		comp := func(i int) (ecs.Component, interface{}) { v := k.mk(i); return ecs.Component{ID: id, Comp: v}, v }
 		steps := []struct {
 			name string
 			run  func()
 		}{
-			{"NewEntityWith", func() { e1 = w.NewEntityWith(ecs.Component{ID: id, Comp: k.mk(1)}) }},
-			{"NewEntityWith (growth)", func() { e2 = w.NewEntityWith(ecs.Component{ID: id, Comp: k.mk(2)}) }},
+			{"NewEntityWith", func() { c, v := comp(1); e1 = put(w.NewEntityWith(c), v) }},
+			{"NewEntityWith (growth)", func() { c, v := comp(2); e2 = put(w.NewEntityWith(c), v) }},
 			{"Builder.New with relation", func() {
-				e3 = ecs.NewBuilderWith(&w, ecs.Component{ID: id, Comp: k.mk(3)}, ecs.Component{ID: rid, Comp: &sim.CompR{}}).WithRelation(rid).New(e2)
+				c, v := comp(3)
+				e3 = put(ecs.NewBuilderWith(&w, c, ecs.Component{ID: rid, Comp: &sim.CompR{}}).WithRelation(rid).New(e2), v)
 			}},
 			{"Add (move to another table, swap-remove)", func() { w.Add(e1, a) }},
-			{"Set", func() { w.Set(e1, id, k.mk(4)) }},
-			{"Assign", func() { e := w.NewEntity(); w.Assign(e, ecs.Component{ID: id, Comp: k.mk(5)}) }},
+			{"Set", func() { v := k.mk(4); w.Set(e1, id, v); put(e1, v) }},
+			{"Assign", func() { e := w.NewEntity(); c, v := comp(5); w.Assign(e, c); put(e, v) }},
 			{"Relations.Set (move between target tables)", func() { w.Relations().Set(e3, rid, e1) }},
 			{"Batch.Add (batch move)", func() { f := ecs.All(id).Without(a); w.Batch().Add(&f, a) }},
+			{"Exchange (add and remove, move back)", func() { w.Exchange(e3, nil, []ecs.ID{a}) }},
 			{"Remove component", func() { w.Remove(e1, id) }},
-			{"RemoveEntity", func() { w.RemoveEntity(e2) }},
-			{"Batch.RemoveEntities", func() { w.Batch().RemoveEntities(ecs.All(id)) }},
-			{"Reset", func() { w.NewEntityWith(ecs.Component{ID: id, Comp: k.mk(6)}); w.Reset() }},
+			{"RemoveEntity (swap-remove of the first row)", func() { w.RemoveEntity(e2) }},
+			{"NewEntityWith (reuse of a freed row)", func() { c, v := comp(7); put(w.NewEntityWith(c), v) }},
+			{"Batch.RemoveEntities", func() { f := ecs.All(id).Without(rid); w.Batch().RemoveEntities(&f) }},
+			{"Reset", func() { c, v := comp(6); put(w.NewEntityWith(c), v); w.Reset(); clear(expected) }},
+			{"NewEntityWith after Reset", func() { c, v := comp(8); put(w.NewEntityWith(c), v) }},
+		}
+		bad := func(step, msg string) {
+			rp.Violation(&runner.ReplayFile{Scenario: "c14-kinds", Sig: "C14:content:" + k.name, Kind: "c14model",
+				Msg:     fmt.Sprintf("component type %v (%s): after %s %s", k.tp, k.name, step, msg),
+				OpsText: []string{"script of c14KindTraces up to: " + step}})
 		}
 		for _, st := range steps {
 			before := w.VerifColumns()
 			cur = cur[:0]
 			st.run()
 			traced++
+			for e, want := range expected {
+				if !w.Alive(e) || !w.Has(e, id) {
+					delete(expected, e)
+					continue
+				}
+				if got := c14Show(k.tp, w.Get(e, id)); got != want {
+					bad(st.name, fmt.Sprintf("the component of entity %v reads %s, the value supplied last was %s", e, got, want))
+				}
+			}
+			if err := w.VerifCheckInvariants(); err != nil {
+				bad(st.name, "the storage is inconsistent: "+err.Error())
+			}
 			if t := abstractTrace(cur, append(before, w.VerifColumns()...)); t != nil {
 				key := t.shape
 				if _, ok := shapes[key]; !ok {
@@ -742,6 +779,62 @@ func c14KindTraces(shapes map[string]*gcTrace) (traced int, kinds []string) {
 	return traced, kinds
 }
 
+// component types that are not structs
+type (
+	barePtr    *gen14.Obj
+	bareSlice  []uint64
+	bareString string
+	bareMap    map[int]uint64
+	bareIface  interface{}
+	bareChan   chan int
+	bareFunc   func()
+	bareArr    [3]*gen14.Obj
+)
+
+// c14Show renders a component value including the identity of everything it references.
+func c14Show(tp reflect.Type, p unsafe.Pointer) string {
+	if p == nil {
+		return "<nil pointer>"
+	}
+	var show func(v reflect.Value) string
+	show = func(v reflect.Value) string {
+		switch v.Kind() {
+		case reflect.Pointer, reflect.UnsafePointer, reflect.Chan, reflect.Func:
+			return fmt.Sprintf("%s@%x", v.Kind(), v.Pointer())
+		case reflect.Map:
+			return fmt.Sprintf("map@%x(len %d)", v.Pointer(), v.Len())
+		case reflect.Slice:
+			s := fmt.Sprintf("slice@%x(len %d cap %d)[", v.Pointer(), v.Len(), v.Cap())
+			for i := 0; i < v.Len() && i < 8; i++ {
+				s += show(v.Index(i)) + " "
+			}
+			return s + "]"
+		case reflect.String:
+			return fmt.Sprintf("string(len %d)%q", v.Len(), v.String())
+		case reflect.Interface:
+			if v.IsNil() {
+				return "iface(nil)"
+			}
+			return "iface(" + v.Elem().Type().String() + ":" + show(v.Elem()) + ")"
+		case reflect.Struct:
+			s := "{"
+			for i := 0; i < v.NumField(); i++ {
+				s += show(v.Field(i)) + " "
+			}
+			return s + "}"
+		case reflect.Array:
+			s := "["
+			for i := 0; i < v.Len(); i++ {
+				s += show(v.Index(i)) + " "
+			}
+			return s + "]"
+		default:
+			return fmt.Sprint(v)
+		}
+	}
+	return show(reflect.NewAt(tp, p).Elem())
+}
+
 func c14Model(rp *runner.Report) {
 	depth := pick(rp.Tier, 3, 4)
 	shapes, traced := c14Traces(depth, false)
@@ -753,7 +846,7 @@ func c14Model(rp *runner.Report) {
 		}
 	}
 	traced += tracedLast
-	t2, kinds := c14KindTraces(shapes)
+	t2, kinds := c14KindTraces(rp, shapes)
 	traced += t2
 	rp.Extra["pointer_kinds_traced"] = kinds
 	names := []string{}
